@@ -36,6 +36,8 @@ TraceNew ==
 Derive(kind, o) == CASE kind = "swap"   -> SwapObj(o)
                      [] kind = "negate" -> NegateObj(o)
                      [] kind = "affine" -> o
+                     [] kind = "materialise" ->
+                          MaterialiseObj(o, MinSet(ValuesOf(o)), MaxSet(ValuesOf(o)))
 TraceDerive ==
   /\ IsEvent("Derive")
   /\ LET e == Log[l]
@@ -52,7 +54,7 @@ SwapCells(c) == <<c[4], c[3], c[2], c[1]>>
 Cells(c) == <<c[1], c[2], c[3], c[4]>>
 SameRate(a, b) == IF a[2] = 0 \/ b[2] = 0 THEN a[2] = 0 /\ b[2] = 0 ELSE REq(a, b)
 
-Relations(e, src, kind, o) ==
+Relations(e, src, kind, o, so) ==
   LET n == Len(e.t2)
       sameGrid == Len(src.t2) = n /\ Len(e.cm) = n /\ Len(src.cm) = n
       thrOK(f(_)) == \A m \in DOMAIN e.thr :
@@ -81,6 +83,20 @@ Relations(e, src, kind, o) ==
               /\ Close(e.eer.e6, src.eer.e6, 2)
               /\ (TieFree(o) => Close(e.eer.t4, src.eer.t4, 5))>>,
          <<"C08.affine_auc", SameRate(e.auc, src.auc) /\ SameRate(e.pauc, src.pauc)>>}
+       (* C09: so = the object declaring easy samples, o = its materialisation  *)
+       [] kind = "materialise" -> {
+         <<"C09.same_matrices", sameGrid /\ \A i \in 1..n :
+              (e.t2[i] >= 2 * MinSet(ValuesOf(so)) - 1 /\ e.t2[i] <= 2 * MaxSet(ValuesOf(so)) + 1)
+                 => Cells(e.cm[i]) = Cells(src.cm[i])>>,
+         <<"C09.same_thresholds", \A m \in DOMAIN e.thr :
+              /\ m \in DOMAIN src.thr /\ Len(e.thr[m]) = Len(src.thr[m])
+              /\ \A i \in 1..Len(e.thr[m]) :
+                   LET S == RelScores(so, m) IN
+                   (e.thr[m][i][2] > 0 /\ RLe(RInt(S[1]), e.thr[m][i])
+                                       /\ RLe(e.thr[m][i], RInt(S[Len(S)])))
+                     => (src.thr[m][i][2] > 0 /\ REq(e.thr[m][i], src.thr[m][i]))>>,
+         <<"C09.same_auc", SameRate(e.auc, src.auc) /\ SameRate(e.pauc, src.pauc)
+                           /\ SameRate(e.pauc2, src.pauc2)>>}
 
 TraceProbe ==
   /\ IsEvent("probe")
@@ -92,7 +108,8 @@ TraceProbe ==
              {<<"C08.raised", e.exc = "">>} \cup
              (IF e.exc = "" /\ e.h \in DOMAIN link /\ link[e.h][2] \in DOMAIN obs
                             /\ obs[link[e.h][2]].exc = ""
-              THEN Relations(e, obs[link[e.h][2]], link[e.h][1], o) ELSE {})))
+              THEN Relations(e, obs[link[e.h][2]], link[e.h][1], o, store[link[e.h][2]])
+              ELSE {})))
 
 Next == TraceNew \/ TraceDerive \/ TraceProbe
 Spec == Init /\ [][Next]_vars
